@@ -72,7 +72,7 @@ impl DataItem for DateItem {
                     0 => (),
                     n => {
                         year     = year.checked_add(i32::try_from(n).ok()?)?;
-                        duration = Duration::seconds(duration.num_seconds() - (YEAR * n))
+                        duration = Duration::try_seconds(duration.num_seconds() - (YEAR * n))?
                     }
                 };
 
@@ -83,7 +83,7 @@ impl DataItem for DateItem {
                         let total_month = month0 + n as u32;
                         year     = year.checked_add((total_month / 12) as i32)?;
                         month0   = total_month % 12;
-                        duration = Duration::seconds(duration.num_seconds() - (MONTH * n))
+                        duration = Duration::try_seconds(duration.num_seconds() - (MONTH * n))?
                     }
                 };
 
@@ -98,7 +98,7 @@ impl DataItem for DateItem {
                     0 => (),
                     n => {
                         year     = year.checked_sub(i32::try_from(n).ok()?)?;
-                        duration = Duration::seconds(duration.num_seconds() - (YEAR * n))
+                        duration = Duration::try_seconds(duration.num_seconds() - (YEAR * n))?
                     }
                 };
 
@@ -111,7 +111,7 @@ impl DataItem for DateItem {
                             month += 12;
                         }
 
-                        duration = Duration::seconds(duration.num_seconds() - (MONTH * n))
+                        duration = Duration::try_seconds(duration.num_seconds() - (MONTH * n))?
                     }
                 };
 
